@@ -64,3 +64,17 @@ func WaitListener(pid, port int, d time.Duration, gone func() bool) bool {
 		time.Sleep(20 * time.Millisecond)
 	}
 }
+
+// WaitFor polls cond every 5 ms until it holds or d has passed.
+func WaitFor(d time.Duration, cond func() bool) bool {
+	end := time.Now().Add(d)
+	for {
+		if cond() {
+			return true
+		}
+		if time.Now().After(end) {
+			return false
+		}
+		time.Sleep(5 * time.Millisecond)
+	}
+}
